@@ -255,7 +255,7 @@ def rule_pattern_args(ctx, rep, rule_id="R-PATTERN-ARGS", families=(1, 2)):
         min_instances=4,
     )
     fams = [ROLE_FAMILIES[i] for i in families]
-    for fn in ctx.prog.functions.values():
+    for fn in ctx.prog.live_functions():
         r = ctx.resolver(fn)
         for n in walk_no_nested(fn.node):
             if not isinstance(n, ast.Call):
